@@ -98,6 +98,7 @@ class EvalDeriv(BaseOneIndex):
         ValueError
             If orders has any negative numbers.
             If orders does not have `dtype` int.
+            If `deriv_type` is "direct" and any of the orders is greater than 2.
 
         Note
         ----
@@ -132,6 +133,11 @@ class EvalDeriv(BaseOneIndex):
                 points, orders, center, angmom_comps, alphas, prim_coeffs, norm_prim_cart
             )
         elif deriv_type == "direct":
+            if np.any(orders > 2):
+                raise ValueError(
+                    "`deriv_type='direct'` only supports derivative orders up to 2. Use "
+                    "`deriv_type='general'` for higher orders."
+                )
             output = _eval_first_second_order_deriv_contractions(
                 points, orders, center, angmom_comps, alphas, prim_coeffs, norm_prim_cart
             )
